@@ -32,6 +32,9 @@ type c09Case struct {
 	// Late: a client that lets answered replies pile up, consumes them in stages while asking for more, and
 	// finally reads at full speed: once it reads, everything the backends answered must reach it (runPhased)
 	Late *PipeSpec `json:"late_reader,omitempty"`
+	// Cold (lone requests): a password is configured and the node's connections are dropped before every request,
+	// so each request travels right behind the handshake of a freshly dialled connection
+	Cold bool `json:"cold_connections,omitempty"`
 }
 
 const c09Delta = time.Second
@@ -68,6 +71,7 @@ func c09Gen(t *rapid.T) c09Case {
 		c.Lone = true
 		c.Nodes, c.SplitEach, c.Second, c.DurMs = 3, 0, false, 2600
 		c.LatMs = []int{rapid.IntRange(0, 20).Draw(t, "lonelat")}
+		c.Cold = rapid.Bool().Draw(t, "cold")
 		return c
 	}
 	if rapid.IntRange(0, 6).Draw(t, "partnermode") == 0 {
@@ -141,8 +145,12 @@ func c09Exec(c *c09Case) ([]Discrepancy, bool) {
 		evidence.For("C09").Add("requests_judged", len(exp))
 		return ds, len(c.Late.Clients[0].Phases) > 1
 	}
+	cfg := sut.Config{ServerConns: 1}
+	if c.Cold {
+		cfg.Password = "pw"
+	}
 	for attempt := 0; attempt < 3; attempt++ {
-		f := getFixture("C09", sut.Config{ServerConns: 1}, 3, 0)
+		f := getFixture("C09", cfg, 3, 0)
 		ds, nt = c09Run(f, c)
 		if len(ds) == 0 {
 			if attempt > 0 {
@@ -203,6 +211,10 @@ func c09Run(f *Fixture, c *c09Case) ([]Discrepancy, bool) {
 		return a
 	})
 	defer f.Cluster.SetHandler(nil)
+	if c.Cold {
+		f.Cluster.SetHandshakeCoalesce(true)
+		defer f.Cluster.SetHandshakeCoalesce(false)
+	}
 	meter := startLagMeter()
 	rq0 := f.Proxy.RunQueueWait()
 	nclients := 1
@@ -234,6 +246,10 @@ func c09Run(f *Fixture, c *c09Case) ([]Discrepancy, bool) {
 				// one request to a node nobody else talks to, then silence: the reply is the last thing on that
 				// backend connection
 				for round := 0; round < 2; round++ {
+					if c.Cold {
+						f.Cluster.CloseDataConns(f.Owners[slots[ci%len(slots)]].Master, false)
+						time.Sleep(25 * time.Millisecond)
+					}
 					k := refmodel.KeyInSlot(slots[ci%len(slots)], fmt.Sprintf("c%dr%dk0", ci, round))
 					s.keys = append(s.keys, k)
 					s.sentAt = append(s.sentAt, time.Now())
@@ -407,6 +423,9 @@ func TestC09(t *testing.T) {
 		}
 		if c.Lone {
 			cls = append(cls, "lone-requests-with-tiny-replies")
+		}
+		if c.Cold {
+			cls = append(cls, "right-behind-the-handshake-of-a-new-connection")
 		}
 		if c.Late != nil {
 			cls = []string{"backlog-consumed-in-stages-by-a-late-reader"}
